@@ -22,6 +22,7 @@ import XzVerif.Lemmas.C03Probs
 import XzVerif.Lemmas.C03Examples
 import XzVerif.Lemmas.C03Coder
 import XzVerif.Lemmas.C03Fuel
+import XzVerif.Lemmas.C03Reps
 
 namespace XzVerif.C03
 open XzVerif.RangeDec XzVerif.LzDict XzVerif.Lzma XzVerif.Lzma2
@@ -411,6 +412,35 @@ theorem decode_result_bounds (ch : Chain) (input : List UInt8) (outCap : Nat) :
       unfold Chain.post
       rw [hpre, List.foldr_nil, Coder.output_length]
       omega
+
+
+/-! ## 6b. the rep-register invariant (why every distance handed to the dictionary is valid) — reused by C04
+
+  `RepsOk s := (state ≥ LIT_STATES → dict.full > 0) ∧ every rep_i is 0 or < dict.full`.
+  In the C code the match distance of a simple match is checked (`dict_is_distance_valid(&dict, rep0)`), but repeated
+  matches and matched literals use `rep0..rep3` after checking only `dict.full > 0`; that this is enough is this invariant. -/
+
+/-- `RepsOk` holds after `lzma_decoder_reset`; one symbol decode that returns normally keeps it, does not touch the dictionary,
+    and when its output step is a short rep or a copy then `rep0 < dict.full`; the matched-literal read `dict_get(rep0)`
+    (state not a literal state) has `rep0 < dict.full`; the output step keeps it while the dictionary positions are well
+    formed. With `dict_indices_in_bounds` every dictionary index computed between two resets of the dictionary is in bounds. -/
+theorem reps_invariant :
+    (∀ (s : St) (p : Props), RepsOk (s.resetLzma p))
+    ∧ (∀ (ev : Bool) (s : St) (act : Pending) (s' : St), RepsOk s → decodeSymbol ev s = .ok act s' →
+          RepsOk s' ∧ s'.dp = s.dp ∧ (usesRep0 act → s'.rep0 < s'.dp.full))
+    ∧ (∀ (s : St), RepsOk s → isLiteralState s.state = false → s.rep0 < s.dp.full)
+    ∧ (∀ (p : Pending) (s s' : St), RepsOk s → PosInv s.dp → doWrite p s = .ok () s' → RepsOk s' ∧ PosInv s'.dp) :=
+  ⟨repsOk_reset, fun ev s act s' h he => decodeSymbol_repsOk ev s act s' h he, matched_literal_read_valid,
+   fun p s s' h hp he => doWrite_repsOk p s s' h hp he⟩
+
+/-- What is still open: the invariant along a whole LZMA2 stream. A dictionary reset empties the dictionary while the old
+    `state`/`rep` values are still in place; they are only reset at SEQ_PROPERTIES, which the control-byte rules
+    (`lzma2_control_exact`: after a dictionary reset the next LZMA chunk must carry properties) force to happen before the
+    next symbol is decoded. Stated for every state reachable from a fresh LZMA2 coder at the moment a symbol decode starts. -/
+def reps_invariant_lzma2_statement : Prop :=
+  ∀ (dictSize : Nat) (preset : List UInt8) (input : ByteArray) (calls : List Nat),
+    let c := calls.foldl (fun (c : Coder) cap => (c.code cap).2) (Coder.initLzma2 dictSize preset input)
+    c.s.l2.seq = .lzma → c.s.pending ≠ .stuck → RepsOk c.s
 
 /-- Initialisation is total and rejects exactly the documented cases: PROG_ERROR for lc/lp/pb outside `is_lclppb_valid`,
     OPTIONS_ERROR for LZMA1EXT flags other than LZMA_LZMA1EXT_ALLOW_EOPM; nothing else fails (allocation aside). -/
